@@ -132,6 +132,11 @@ def run_shard(spec, ctx):
                     case = oracle.expect_error(oracle.single(line + "\n"), ["value-out-of-bounds"])
                 for sig, msg in oracle.check_expect(case, prefix="codes:"):
                     ctx.fail(sig, f"{line!r}: {msg}", case)
+                if not 0 <= n < 40:
+                    # a refusal stays a refusal whatever follows it (here: a statement that only draws a warning)
+                    case = oracle.expect_error(oracle.single(line + "\n\t.word\n\t.list\n"), ["value-out-of-bounds"])
+                    for sig, msg in oracle.check_expect(case, prefix="codes-then-warning:"):
+                        ctx.fail(sig, f"{line!r} followed by a warning-only statement: {msg}", case)
         for line, ident in [(".word ^R", "invalid-string"), (".word ^RABCD", "invalid-string"),
                             (".word ^RABCDE", "invalid-string"), (".word ^Rabcd", "invalid-string")]:
             ctx.case(line, True, ["caret-reject"], sample=line)
@@ -151,10 +156,10 @@ def run_shard(spec, ctx):
                 # raw line breaks inside the tested text would shift the line numbering: those code points go one by one
                 solo = [i for i, cp in enumerate(chunk) if chr(cp) in "\n\r\x0b\x0c\x1c\x1d\x1e\x85\u2028\u2029"]
                 batch = [i for i in range(len(chunk)) if i not in solo]
-                text = "\n".join(lines[i] for i in batch) + "\n"
+                text = "\n".join(lines[i] for i in batch) + "\n\t.word\n"      # ends with a statement that only draws a warning
                 out = driver.assemble([("/vf/r50f.mac", text)])
                 suspects = list(solo)
-                if out.kind in ("crash", "timeout", "silent", "ok-with-errors"):
+                if out.kind in ("crash", "timeout", "silent", "ok-with-errors") or (form == "dir" and out.kind == "ok" and batch):
                     suspects = list(range(len(chunk)))
                 else:
                     starts = [0]
@@ -174,7 +179,7 @@ def run_shard(spec, ctx):
                 for i in suspects:
                     line = lines[i]
                     if form == "dir":
-                        case = oracle.expect_error(oracle.single(line + "\n"), ["invalid-character"])
+                        case = oracle.expect_error(oracle.single(line + "\n\t.word\n"), ["invalid-character"])
                         for sig, msg in oracle.check_expect(case, prefix="foreign-dir:"):
                             ctx.fail(sig, f"{line!r} (U+{chunk[i]:04X}): {msg}", case)
                     else:
